@@ -54,7 +54,10 @@ ReportAccept(c, x, now, blk) ==
   LET e == ReportOut(c, x, now) IN
   /\ blk.pkts = e.pkts /\ blk.oct = e.oct /\ blk.sec = e.sec
   /\ blk.frac - e.frac <= 2 /\ e.frac - blk.frac <= 2
-  /\ (x.pkts > 0 => (blk.rtp = e.rtp \/ blk.rtp = e.rtp - 1))
+  \* (a report instant BEFORE the reference - a packet written while the tick was in progress, a clock that stepped back -
+  \* moves the timestamp back; the code truncates the negative product towards zero: the exact floor or one more)
+  /\ (x.pkts > 0 => IF now >= x.refMs THEN (blk.rtp = e.rtp \/ blk.rtp = e.rtp - 1)
+                                        ELSE (blk.rtp = e.rtp \/ blk.rtp = e.rtp + 1))
 
 \* ---- deviation predicates (names used as tags in KNOWN_FINDINGS.jsonl) ----
 \* the first packet of a stream carries the RTP timestamp 0 on the wire (z = wire value is zero)
